@@ -15,6 +15,7 @@ mod grammar;
 mod generate;
 mod cli;
 mod testrun;
+mod updaterun;
 
 use common::*;
 use std::sync::Mutex;
@@ -56,8 +57,8 @@ fn main() {
             "C19" => render::replay(&prop, &r),
             "C07" => cram::replay(&prop, &r),
             "C08" => grammar::replay(&prop, &r),
-            // two harness modules: the end-to-end ops of cli.rs are recognised by their shape
-            "C09" | "C10" => if cli::is_cli_op(&r) { cli::replay(&prop, &r) } else { generate::replay(&prop, &r) },
+            // three harness modules: the ops of updaterun.rs (`upddoc`) and the end-to-end ops of cli.rs are recognised by their shape
+            "C09" | "C10" => if updaterun::is_upddoc_op(&r) { updaterun::replay(&prop, &r) } else if cli::is_cli_op(&r) { cli::replay(&prop, &r) } else { generate::replay(&prop, &r) },
             "C11" => escaping::replay(&prop, &r),
             "C04" => {
                 // the property has two harness modules: dispatch on the op name
@@ -91,6 +92,8 @@ fn main() {
             // library generators vs the Lean model in-process, then the command-line glue (create.rs, update.rs) end to end
             generate::run(&ctx, &prop);
             cli::run(&ctx, &prop);
+            // the integrated model of `scrut update` on documents whose commands have known output
+            updaterun::run(&ctx, &prop);
         }
         "C11" => escaping::run(&ctx, &prop),
         "C04" => {
